@@ -4,7 +4,10 @@ cd "$(dirname "$0")/.."
 rc=0
 selftest/engine.sh || { rc=1; echo "FAILED: engine self-test"; }
 for id in $(python3 -c "import json; print(' '.join(c['property_id'] for c in json.load(open('MANIFEST.json'))['checks']))"); do
-  ./check $id ${1:-quick} 2>&1 | tail -${2:-1}; [ ${PIPESTATUS[0]} -eq 0 ] || { rc=1; echo "FAILED: $id"; }
+  ./check $id ${1:-quick} > /tmp/runall_$id.log 2>&1; st=$?
+  tail -${2:-1} /tmp/runall_$id.log
+  [ $st -eq 0 ] || { rc=1; echo "FAILED: $id"; grep "^FAILED-\|^ENGINE-ERROR" /tmp/runall_$id.log | cut -c1-400; cp /tmp/runall_$id.log /tmp/runall_failed_$id.log; }
+  rm -f /tmp/runall_$id.log
 done
 rm -rf replays
 python3-vt - <<'PY'
